@@ -5,11 +5,11 @@
 id="$1"; pid="$2"; tier="${3:-quick}"
 wt=$(mktemp -d /tmp/seedwt-XXXXXX); rmdir "$wt"
 git -C /repo worktree add --detach "$wt" HEAD -q || exit 2
-trap 'git -C /repo worktree remove --force "$wt" >/dev/null 2>&1' EXIT
+trap 'git -C /repo worktree remove --force "$wt" >/dev/null 2>&1; rm -f "$wt.demo.out"' EXIT
 ( cd "$wt" && git apply "/verif/seeded/$id/patch.diff" ) || { echo "PATCH DOES NOT APPLY"; exit 2; }
 demo=$(ls /verif/seeded/$id/demo* 2>/dev/null | head -1)
 if [ -n "$demo" ]; then
-  ( cd "$wt" && PYTHONPATH="$wt" timeout 600 /venv/bin/python "$demo" >/tmp/seed_demo.out 2>&1 ); echo "demo on patched tree: rc=$? ($(tail -1 /tmp/seed_demo.out | cut -c1-160))"
+  ( cd "$wt" && PYTHONPATH="$wt" timeout 600 /venv/bin/python "$demo" >"$wt.demo.out" 2>&1 ); echo "demo on patched tree: rc=$? ($(tail -1 "$wt.demo.out" | cut -c1-160))"
 fi
 cd /verif && PYXEL_REPO="$wt" VERIF_SEED=${VERIF_SEED:-0} ./check "$pid" "$tier" 2>/dev/null | grep -E "VIOLATION|KNOWN-FINDING|^  C[0-9]|^  unproved" | head -8
 echo "check rc=${PIPESTATUS[0]}"
